@@ -82,9 +82,9 @@ def run(c):
     if c.tier == "thorough":
         vecs += gen(c, 4, True)          # |s| <= 4 over the small alphabet
     else:
-        # every change: all sequences |s| <= 2 and a seeded quarter of those of length 3 (TLC checked the theorems on all)
+        # every change: all sequences |s| <= 2 and a seeded eighth of those of length 3 (TLC checked the theorems on all)
         import zlib
-        vecs = [v for v in vecs if len(v["calls"]) <= 3 or zlib.crc32(json.dumps(v["calls"], sort_keys=True).encode()) % 4 == c.seed % 4]
+        vecs = [v for v in vecs if len(v["calls"]) <= 3 or zlib.crc32(json.dumps(v["calls"], sort_keys=True).encode()) % 8 == c.seed % 8]
     mism, stats = run_vectors(c, vecs, "main", 3 if c.tier == "thorough" else 2)     # the cache path for every 3rd / 2nd vector
     c.cov["vectors_executed"] += stats["executed"]
     c.cov["harness_stats"] = stats
